@@ -23,7 +23,8 @@ TRICKY = ['T154N-R97W Section: NE/4', 'Section NE/4 T154N-R97W', 'T154N-R97W Sec
           # digit runs beyond CPython's 4300-digit limit on str -> int conversion, wherever a number is read
           'T154N-R97W Sec ' + '1' * 4301 + ': NE/4', 'NE/4 of Section 14 - ' + '1' * 4301 + ', T154N-R97W', 'T154N-R97W Sec 14: Lots 1 - ' + '2' * 4400,
           'T' + '1' * 4301 + 'N-R97W Sec 14: NE/4', 'T154N-R' + '9' * 4302 + 'W Sec 14: NE/4', 'Lot ' + '3' * 4301 + '(40.00)', 'T154N-R97W Sec 14: Lot 1(' + '4' * 4301 + ')',
-          'Sec ' + '0' * 4301 + '1 T154N-R97W']
+          'Sec ' + '0' * 4301 + '1 T154N-R97W',
+          'T154N-R97W (5th P.M.), Sec 14: NE/4', 'NE/4 of Section 14, T154N-R97W [5th P.M.]', 'T154N | R97W Sec 14: NE/4', 'T154N-R97W \\5th P.M. Sec 14: NE/4']
 
 
 def rand_config(r):
@@ -79,6 +80,13 @@ def run(tier, mode):
         x = r.randint(1, 4)
         br = lambda: r.choice(['({})', '[{}]']).format(r.choice(['', '.', '40.10', '40.1', '38', '.5', '5.']))
         texts.append(r.choice(['', 'T154N-R97W Sec 14: ']) + f'Lot {x}{br()}' + r.choice([' and the NE/4; ', ' less the N/2; ', '; NE/4, ']) + f'Lot {x}{br()}')
+    # characters that mean something to `re` (or to str.format / %-formatting) inside the text a preprocessing pattern matches: the principal-meridian pattern lets up
+    # to 25 arbitrary characters into its match, e.g. a parenthesised or bracketed meridian
+    META = ['(', ')', '[', ']', '{', '}', '\\', '*', '+', '?', '|', '^', '$', '.', '%s', '{0}', '\\1', '\\g<1>', '(?i)', '5th', 'of the', ' ', ' ']
+    for _ in range(n // 8):
+        filler = ''.join(r.choice(META) for _ in range(r.randint(1, 6)))[:22]
+        texts.append(r.choice(['T154N-R97W', 'Township 154 North, Range 97 West', 'NE/4 of Section 14, T154N-R97W']) + r.choice([' ', ', ', '']) + filler
+                     + r.choice(['P.M.', 'PM', 'Principal Meridian', ' P. M.)']) + r.choice(['', ', Sec 14: NE/4', ']', ')']))
     # halves followed by a quarter in every spelling the half-plus-quarter scrubber accepts (hyphenated, 'Nort'/'Sout', dotted, spaced),
     # ending at every terminator its look-ahead accepts
     for _ in range(n // 5):
